@@ -20,7 +20,21 @@ CONFIGS = {
     "no_structure": {"rule": {"group": {"structure": {"disable": True}}}},
     "endlabels": {"rule": {"loop_statement_007": {"disable": False}, "block_007": {"disable": False}, "generate_011": {"disable": False}, "case_generate_statement_500": {"disable": False}}},
     "fix_warnings": {"rule": {"group": {"whitespace": {"severity": "Warning"}, "case": {"fixable": False}}}},
+    # every documented form of the white-space option with a zero bound (docs/configuring_whitespace_rules.rst)
+    "spaces_gt0": {"rule": {"global": {"number_of_spaces": ">0"}}},
+    "spaces_ge0": {"rule": {"global": {"number_of_spaces": ">=0"}}},
+    "spaces_0plus": {"rule": {"global": {"number_of_spaces": "0+"}}},
+    "spaces_lt1": {"rule": {"global": {"number_of_spaces": "<1"}}},
+    "spaces_0": {"rule": {"global": {"number_of_spaces": 0}}},
+    # documented values of the alignment options (docs/configuring_keyword_alignment_rules.rst), both ways
+    "align_a": {"rule": {"global": {"compact_alignment": "yes", "blank_line_ends_group": "no", "comment_line_ends_group": "no", "separate_generic_port_alignment": "no", "if_control_statements_ends_group": "yes", "case_control_statements_ends_group": "break_on_case_or_end_case", "generate_statements_ends_group": "yes", "loop_control_statements_ends_group": "yes"}}},
+    "align_b": {"rule": {"global": {"compact_alignment": "no", "blank_line_ends_group": "yes", "comment_line_ends_group": "yes", "separate_generic_port_alignment": "yes", "if_control_statements_ends_group": "no", "case_control_statements_ends_group": "yes", "generate_statements_ends_group": "no", "loop_control_statements_ends_group": "no"}}},
+    "smart_tabs": {"rule": {"global": {"indent_style": "smart_tabs"}}},
+    # skip lists (the configuration is the default one; the list is passed to rule_list.fix by the runner)
+    "skip1": {},
+    "caseonly": {},
 }
+SKIPS = {"skip1": [1], "caseonly": [1, 2, 3, 4, 5]}
 
 END_KEYWORDS = set("is entity architecture process function procedure package body component case if loop generate block record units protected context configuration for postponed end".split())
 
@@ -518,7 +532,7 @@ def fix_run(args):
     undo_monitor = monitor.install(mon) if opts.get("monitor", True) else (lambda: None)
     try:
         try:
-            oRules.fix(7, [], None)
+            oRules.fix(7, list(SKIPS.get(cfgname, [])), None)
         except Timeout:
             probs["C19"].append((getattr(state.get("rule"), "unique_id", ""), "fix run did not finish within %d s" % opts.get("timeout", 300)))
             return probs, stats
@@ -581,7 +595,7 @@ def _check_reparse(oFile, oRules, oConfig, out_lines, path, cfgname, probs, K):
     """C08: the emitted text is accepted and parses to the same model; the report after fixing equals a fresh check"""
     oRules.clear_violations()
     try:
-        oRules.check_rules(True, [])
+        oRules.check_rules(True, list(SKIPS.get(cfgname, [])))
     except Exception as e:  # noqa
         probs["C19"].append(("", "check after fix raised %r" % (e,)))
         return
@@ -609,7 +623,7 @@ def _check_reparse(oFile, oRules, oConfig, out_lines, path, cfgname, probs, K):
                 if x[0] == "code" and x[3] != y[3] and x[3] is not None and y[3] is not None:
                     probs["C08"].append(("", "token %d %r has indent level %s in memory but %s when re-read" % (i, x[1], x[3], y[3])))
                     break
-        r2.check_rules(True, [])
+        r2.check_rules(True, list(SKIPS.get(cfgname, [])))
         rep_new = _report(r2)
         if rep_mem != rep_new:
             d = [x for x in rep_mem if x not in rep_new][:2] + [x for x in rep_new if x not in rep_mem][:2]
@@ -629,7 +643,7 @@ def _check_converges(out_lines, path, cfgname, probs):
             if ld is None:
                 return
             f2, r2, c2, l2 = ld
-            r2.fix(7, [], None)
+            r2.fix(7, list(SKIPS.get(cfgname, [])), None)
             nxt = f2.get_lines()[1:]
         except Exception:  # C19/C08 report crashes
             return
